@@ -9,7 +9,8 @@ package main
 //          close0 (the panel closes the connection when it has seen the initial request, nothing sent) |
 //          close2 (sends the identity message — model, serial, name — waits 100 ms, closes) |
 //          overlimit (identity message, 100 ms, then a frame header 500000 and nothing more; connection stays open; binary only) |
-//          stall (identity message, then a frame of which 3 bytes never come / a line without its line feed, then silence)
+//          stall (identity message, then a frame of which 3 bytes never come / a line without its line feed, then silence) |
+//          fullclose (the complete answer in one write, then the panel closes at once: either result of Connect is accepted)
 //   bind   comma list of bindings: t<id> trigger, b<id> binary, p<id> pulsed, a<id> absolute, i<id> intensity ("-" = none)
 //   fb     1 = every handler sends feedback with SetLEDColor (into toPanel — which the pinned code drained in the same loop that
 //          dispatches; now a writer goroutine of its own does);
@@ -629,6 +630,15 @@ func gwRun(a map[string]string) string {
 			topo.Svgbase = ""
 		}
 		switch initv {
+		case "fullclose":
+			// the complete answer in one write, then the close right behind it
+			var b []byte
+			b = append(b, gwWire(bin, &rwp.OutboundMessage{PanelInfo: info})...)
+			b = append(b, gwWire(bin, &rwp.OutboundMessage{HWCavailability: map[uint32]uint32{1: 1}})...)
+			b = append(b, gwWire(bin, &rwp.OutboundMessage{PanelTopology: topo})...)
+			c.Write(b)
+			close(histDone)
+			return
 		case "close0", "close2", "overlimit", "stall":
 			// the connection ends (or a frame stalls) inside the initialisation window
 			if initv != "close0" {
@@ -1182,25 +1192,25 @@ func genC19(r *Rng, n int, tier string) {
 	}
 	// (9) initialisation: a line that never gets its line feed — the window passes, Connect fails (ASCII reader has no deadline)
 	add("mode=asc", "init=stall", "bind=b1", "fb=0", "seg=0", "hist=-")
-	// (10) OPEN FINDING, not part of the default run (VERIF_C19_CONNECT=1): the connection is lost inside the initialisation
-	// window — the unchanged library returns success from Connect although model, serial, topology JSON and SVG have not arrived
-	if os.Getenv("VERIF_C19_CONNECT") == "1" {
-		for _, mode := range modes {
-			for _, iv := range []string{"close0", "close2", "overlimit", "stall"} {
-				if mode == "asc" && (iv == "overlimit" || iv == "stall") {
-					continue
-				}
-				add("mode="+mode, "init="+iv, "bind=b1", "fb=0", "seg=0", "hist=-")
+	// (10) the connection is lost inside the initialisation window: Connect must fail (model, serial, topology JSON and SVG have
+	// not arrived).  Finding C19.connect_success_on_lost_connection, repaired by fix: 800ac1d.
+	for _, mode := range modes {
+		for _, iv := range []string{"close0", "close2", "overlimit", "stall"} {
+			if mode == "asc" && (iv == "overlimit" || iv == "stall") {
+				continue // overlimit: binary only; ASCII stall is (9)
 			}
+			add("mode="+mode, "init="+iv, "bind=b1", "fb=0", "seg=0", "hist=-")
 		}
+		// compare-only: the complete answer in one write and the close right behind it — whether Connect still sees the four
+		// items is a race (the dispatcher stops at ctx.Done() with messages queued); the Spec accepts either result, the model
+		// must explain the one observed (success only with the complete state)
+		add("mode="+mode, "init=fullclose", "bind=b1", "fb=0", "seg=0", "hist=-")
 	}
-	// (11) OPEN FINDING, not part of the default run (VERIF_C19_ACKFLOW=1): a message with flow field ACK that also carries an
-	// event / identity: the binary reader of the unchanged library drops it whole (the ASCII reader only the `ack` line)
-	if os.Getenv("VERIF_C19_ACKFLOW") == "1" {
-		for _, mode := range modes {
-			add("mode="+mode, "init=full", "bind=b1", "fb=0", "seg=0", "hist=Aeb1.1.0")
-			add("mode="+mode, "init=full", "bind=b1,p2", "fb=0", "seg=0", "hist=eb1.1.0;Aep2.1;eb1.0.0;Ai"+gwHexOf("M2")+".-.-")
-		}
+	// (11) a message with flow field ACK that also carries an event / identity must be processed like any other (the pinned binary
+	// reader dropped it whole).  Finding C19.ack_message_dropped_with_payload, repaired by fix: 2f9fdd6.
+	for _, mode := range modes {
+		add("mode="+mode, "init=full", "bind=b1", "fb=0", "seg=0", "hist=Aeb1.1.0")
+		add("mode="+mode, "init=full", "bind=b1,p2", "fb=0", "seg=0", "hist=eb1.1.0;Aep2.1;eb1.0.0;Ai"+gwHexOf("M2")+".-.-;Ag;A")
 	}
 	gwRunIsolated(recs, 32)
 }
